@@ -95,14 +95,22 @@ def run_once(case, perm, vorder):
         # (not the two that compare tags with MITRE data: they fetch it over the network, which this sandbox has not)
         offline = [v for n, v in VALIDATORS.items() if n not in ("attacktag", "d3_fendtag")]
         allv = SigmaValidator(list(reversed(offline)) if vorder else offline).validate_rules(iter(rules))
-        out["allsig"] = sorted(
-            cps(type(i).__name__ + ":" + ",".join(sorted("R" + str(r.custom_attributes["verif_idx"]) for r in i.rules)) + ":"
-                + ";".join(sorted(f"{k}={v}" for k, v in vars(i).items() if k != "rules")))
-            for i in allv)
+        def sig(i):
+            # (an issue that names more rules than the collection has - state kept between runs - is cut short:
+            #  a digest stands for the rest, the comparison between the orders is the same)
+            t = (type(i).__name__ + ":" + ",".join(sorted("R" + str(r.custom_attributes["verif_idx"]) for r in i.rules[:64])) + ":"
+                 + ";".join(sorted(f"{k}={v}" for k, v in vars(i).items() if k != "rules")))
+            if len(i.rules) > 64 or len(t) > 400:
+                import hashlib
+
+                t = t[:200] + "#" + str(len(i.rules)) + "#" + hashlib.sha1(t.encode()).hexdigest()
+            return cps(t)
+
+        out["allsig"] = sorted(sig(i) for i in allv)[:200]
         recs = []
         for i in issues:
             t, attr = ISSUE_T.get(type(i).__name__, (type(i).__name__, None))
-            rs = sorted(int(r.custom_attributes["verif_idx"]) for r in i.rules)
+            rs = sorted(int(r.custom_attributes["verif_idx"]) for r in i.rules)[:32]
             if attr:
                 key = cps(getattr(i, attr))
             elif t == "identifier_uniqueness":
